@@ -312,7 +312,7 @@ type runner struct {
 	prevTree          *et.Node
 }
 
-const nSpaces = 6
+const nSpaces = 7
 
 func (r *runner) space(name string) {
 	r.ctx.Space(name)
@@ -523,6 +523,7 @@ func run(ctx *bex.Ctx) {
 		r.trees([]et.Kind{et.Str, et.Int}, 3, 3)
 		r.deep(2, et.NMapReps)
 		r.afterFailure(2)
+		r.longStrings(200)
 		r.codepoints()
 	} else {
 		r.scalars()
@@ -530,6 +531,7 @@ func run(ctx *bex.Ctx) {
 		r.trees([]et.Kind{et.Str, et.Int}, 3, et.NMapReps)
 		r.deep(3, 1)
 		r.afterFailure(3)
+		r.longStrings(1100)
 		r.codepoints()
 		r.treesWide()
 	}
@@ -607,6 +609,36 @@ func (r *runner) afterFailure(height int) {
 		return true
 	})
 	ctx.SpaceDone(fmt.Sprintf("all %d tree shapes of height <= %d x %d preceding exports that fail or panic after part of the document was written (failing lazy list at top level, nested in a list, as map value behind other entries)", sp.Count(height), height, len(ps)))
+}
+
+// longStrings: every trouble symbol behind a filler of every length up to maxLen (buffers, chunking and
+// offsets inside an exporter are invisible to short strings).
+func (r *runner) longStrings(maxLen int) {
+	ctx := r.ctx
+	r.space("long-strings")
+	var idx int64
+	fillers := []string{"x", "é", "\u20ac"}
+	suffixes := []string{"", "f", "0041"}
+	for p := 0; p <= maxLen; p++ {
+		for _, fill := range fillers {
+			for _, sym := range et.JSONAlphabet {
+				idx++
+				if !ctx.Mine(idx) {
+					continue
+				}
+				if ctx.Expired() {
+					return
+				}
+				for _, suf := range suffixes {
+					s := strings.Repeat(fill, p) + sym + suf
+					r.check(et.S(s), false, p%17 == 3)
+					r.check(et.L(et.LEager, et.S("a"), et.S(s)), false, false)
+					r.check(et.M(et.MListMap, []string{s}, et.S(s+sym)), false, false)
+				}
+			}
+		}
+	}
+	ctx.SpaceDone(fmt.Sprintf("every symbol of the %d-symbol trouble alphabet behind a filler (x, é, €) of every length 0..%d, followed by nothing / a hex digit / four hex digits: as top-level scalar, list element, map key and value", len(et.JSONAlphabet), maxLen))
 }
 
 // treesWide (thorough): four leaf classes at height <= 3.
